@@ -1,1 +1,206 @@
-(* C18 placeholder, filled in below *)
+(* C18 - Hand-offs between rounds preserve totals, bounds and priorities.
+   Statements only (proofs: Proofs/Helpers.v) about the hand model Model/Helpers.v of
+   src/optimizer/parameters.py: calculate_human_consumption_for_min_needs, fill_negatives_with_positives,
+   get_second_round_kcals_with_redistributed_meat, increase_biofuels_then_feed.
+   All series are lists of arbitrary length; numbers are exact rationals. *)
+From Coq Require Import QArith Qminmax Lqa Lia List Bool String.
+From Allfed Require Import Base.QList Model.Helpers Proofs.Helpers.
+Import ListNotations.
+Open Scope Q_scope.
+
+(* ---------------------------------------------------------------- minimum human consumption *)
+
+(* the ceiling is the smaller of the no-feed result and the configured threshold (in percent of daily need) *)
+Theorem c18_cap : forall K T pf, needs_cap K T pf == K * (Qmin pf T / 100).
+Proof. exact needs_cap_min. Qed.
+Print Assumptions c18_cap.
+
+(* what the function returns is the table of hand-offs, keyed in the documented priority order *)
+Theorem c18_min_needs_result : forall K T pf Kc N r d, min_needs K T pf Kc N r = Ok d ->
+  d = combine ["fish"; "meat"; "dairy"; "greenhouse"; "outdoor_crops"; "stored_food"; "methane_scp";
+               "cellulosic_sugar"; "seaweed"]%string
+              (map (fun j => tab N (fun m => handoff (needs_cap K T pf) r N j m)) (seq 0 9)).
+Proof.
+  intros K T pf Kc N r d H. rewrite (min_needs_ok_inv _ _ _ _ _ _ _ H).
+  change (map fst order_table) with ["fish"; "meat"; "dairy"; "greenhouse"; "outdoor_crops"; "stored_food";
+                                     "methane_scp"; "cellulosic_sugar"; "seaweed"]%string.
+  f_equal. apply map_ext. intro j. apply column_as_handoff.
+Qed.
+Print Assumptions c18_min_needs_result.
+
+(* position j of the order refers to these round-1 series (outdoor crops = immediate + newly stored) *)
+Theorem c18_eaten_explicit : forall r m, map (fun j => eaten r j m) (seq 0 9) =
+  [nth m (e_fish r) 0; nth m (e_meat r) 0; nth m (e_milk r) 0; nth m (e_greenhouse r) 0;
+   nth m (e_immediate_oc r) 0 + nth m (e_new_stored_oc r) 0; nth m (e_stored_food r) 0;
+   nth m (e_scp r) 0; nth m (e_cell_sugar r) 0; nth m (e_seaweed r) 0].
+Proof. intros r m. reflexivity. Qed.
+Print Assumptions c18_eaten_explicit.
+
+(* monthly total of the hand-off = min(ceiling, what people ate in round 1 that month) *)
+Theorem c18_min_needs_total : forall cap r N m, (m < N)%nat -> r1_nonneg r -> 0 <= cap ->
+  qsum (tab 9 (fun j => handoff cap r N j m)) == Qmin cap (qsum (tab 9 (fun j => eaten r j m))).
+Proof.
+  intros cap r N m Hm Hr Hc. rewrite (handoff_total cap r N m Hm Hr Hc).
+  assert (E : qsum (tab 9 (fun j => eaten r j m)) == qsum (month_foods r m)).
+  { unfold eaten. change 9%nat with (List.length (month_foods r m)). apply qsum_tab_nth. }
+  rewrite E. reflexivity.
+Qed.
+Print Assumptions c18_min_needs_total.
+
+(* when the no-feed result pf is (at most) every month's percentage, the total is exactly
+   KCALS_DAILY * min(pf, threshold) / 100 in every month *)
+Theorem c18_min_needs_total_exact : forall K T pf r N, 0 <= K -> 0 <= T -> 0 <= pf -> r1_nonneg r ->
+  (forall m, (m < N)%nat -> K * (pf / 100) <= qsum (tab 9 (fun j => eaten r j m))) ->
+  forall m, (m < N)%nat ->
+  qsum (tab 9 (fun j => handoff (needs_cap K T pf) r N j m)) == K * (Qmin pf T / 100).
+Proof.
+  intros K T pf r N HK HT Hpf Hr Hall m Hm.
+  assert (Hx : 0 <= Qmin pf T / 100).
+  { apply Qle_shift_div_l; [reflexivity|]. destruct (Q.min_spec pf T) as [[_ E]|[_ E]]; rewrite E; lra. }
+  assert (Hc : 0 <= needs_cap K T pf).
+  { rewrite needs_cap_min. apply Qmult_le_0_compat; assumption. }
+  rewrite (c18_min_needs_total _ r N m Hm Hr Hc). rewrite needs_cap_min.
+  apply Q.min_l. specialize (Hall m Hm).
+  assert (Hle : K * (Qmin pf T / 100) <= K * (pf / 100)).
+  { rewrite (Qmult_comm K (Qmin pf T / 100)), (Qmult_comm K (pf / 100)).
+    apply Qmult_le_compat_r; [|exact HK].
+    unfold Qdiv. apply Qmult_le_compat_r; [|vm_compute; discriminate].
+    destruct (Q.min_spec pf T) as [[H E]|[H E]]; rewrite E; lra. }
+  lra.
+Qed.
+Print Assumptions c18_min_needs_total_exact.
+
+(* each food's share lies between 0 and what round 1 ate of it *)
+Theorem c18_min_needs_bound : forall cap r N j m, (m < N)%nat -> r1_nonneg r -> 0 <= cap ->
+  0 <= handoff cap r N j m /\ handoff cap r N j m <= eaten r j m.
+Proof.
+  intros cap r N j m Hm Hr Hc. rewrite (handoff_eq cap r N j m Hm). unfold eaten.
+  destruct (consume_bounds (month_foods r m) cap (month_foods_nonneg r m Hr) Hc j) as (A & B & _). split; assumption.
+Qed.
+Print Assumptions c18_min_needs_bound.
+
+(* priority: a food that is not fully taken leaves nothing for any later food of the order *)
+Theorem c18_priority : forall cap r N j m, (m < N)%nat -> r1_nonneg r -> 0 <= cap ->
+  handoff cap r N j m < eaten r j m -> forall k, (j < k)%nat -> handoff cap r N k m == 0.
+Proof.
+  intros cap r N j m Hm Hr Hc Hlt k Hk. rewrite (handoff_eq cap r N k m Hm).
+  rewrite (handoff_eq cap r N j m Hm) in Hlt. unfold eaten in Hlt.
+  exact (consume_priority (month_foods r m) cap (month_foods_nonneg r m Hr) Hc j Hlt k Hk).
+Qed.
+Print Assumptions c18_priority.
+
+(* ---------------------------------------------------------------- fill_negatives_with_positives *)
+
+Theorem c18_fill_sum : forall d, List.length (fill d) = List.length d /\ qsum (fill d) == qsum d.
+Proof. intro d. destruct (fill_spec d) as (L & S & _). split; assumption. Qed.
+Print Assumptions c18_fill_sum.
+
+Theorem c18_fill_nonneg : forall d, 0 <= qsum d -> forall i, 0 <= nth i (fill d) 0.
+Proof. intros d H. destruct (fill_spec d) as (_ & _ & _ & _ & F). exact (F H). Qed.
+Print Assumptions c18_fill_nonneg.
+
+(* surpluses only shrink (never below 0), deficits only shrink (never above 0), whatever the sum *)
+Theorem c18_fill_moves_toward_zero : forall d i,
+  (0 <= nth i d 0 -> 0 <= nth i (fill d) 0 <= nth i d 0) /\ (nth i d 0 <= 0 -> nth i d 0 <= nth i (fill d) 0 <= 0).
+Proof. intros d i. destruct (fill_spec d) as (_ & _ & P & M & _). split; [apply P|apply M]. Qed.
+Print Assumptions c18_fill_moves_toward_zero.
+
+(* ---------------------------------------------------------------- meat re-timing between rounds *)
+
+(* round 2 produced at least as much meat in total: the re-timed series keeps the round-2 total, is at or above
+   the round-1 level every month and non-negative; none of the code's assertions fires *)
+Theorem c18_retime : forall r1 r2, List.length r1 = List.length r2 -> nonneg r1 -> qsum r1 <= qsum r2 ->
+  exists l, redistribute r1 r2 = Ok l /\ List.length l = List.length r2 /\ qsum l == qsum r2 /\
+            forall m, (m < List.length r2)%nat -> nth m r1 0 <= nth m l 0 /\ 0 <= nth m l 0.
+Proof. exact redistribute_ok. Qed.
+Print Assumptions c18_retime.
+
+(* otherwise the code takes the `return None` branch (round 2 is abandoned, nothing is re-timed) *)
+Theorem c18_retime_skip : forall r1 r2, qsum r2 < qsum r1 -> redistribute r1 r2 = Skip.
+Proof. exact redistribute_skip. Qed.
+Print Assumptions c18_retime_skip.
+
+(* ---------------------------------------------------------------- final feed / biofuel adjustment *)
+
+Theorem c18_bump_never_lowers : forall b f inc maxb maxf avail m, (m < List.length b)%nat ->
+  nth m b 0 <= nth m (fst (bump b f inc maxb maxf avail)) 0 /\
+  nth m f 0 <= nth m (snd (bump b f inc maxb maxf avail)) 0.
+Proof.
+  intros b f inc maxb maxf avail m Hm. destruct (bump_nth b f inc maxb maxf avail m Hm) as [-> ->].
+  apply bump1_never_lowers.
+Qed.
+Print Assumptions c18_bump_never_lowers.
+
+(* feed never ends above its demand schedule (nor above feed + requested increase), for ARBITRARY inputs *)
+Theorem c18_bump_feed_ceiling : forall b f inc maxb maxf avail m, (m < List.length b)%nat ->
+  nth m (snd (bump b f inc maxb maxf avail)) 0 <= Qmax (nth m f 0) (nth m maxf 0) /\
+  nth m (snd (bump b f inc maxb maxf avail)) 0 <= Qmax (nth m f 0) (nth m f 0 + nth m inc 0).
+Proof.
+  intros b f inc maxb maxf avail m Hm. destruct (bump_nth b f inc maxb maxf avail m Hm) as [_ ->].
+  apply bump1_feed_ceiling.
+Qed.
+Print Assumptions c18_bump_feed_ceiling.
+
+(* biofuel never ends above its demand schedule when both quantities start within their schedules and the
+   requested increase is non-negative *)
+Theorem c18_bump_biofuel_ceiling : forall b f inc maxb maxf avail m, (m < List.length b)%nat ->
+  nth m b 0 <= nth m maxb 0 -> nth m f 0 <= nth m maxf 0 -> 0 <= nth m inc 0 ->
+  nth m (fst (bump b f inc maxb maxf avail)) 0 <= nth m maxb 0 /\
+  nth m (fst (bump b f inc maxb maxf avail)) 0 <= nth m b 0 + nth m inc 0.
+Proof.
+  intros b f inc maxb maxf avail m Hm H1 H2 H3. destruct (bump_nth b f inc maxb maxf avail m Hm) as [-> _].
+  apply bump1_biofuel_ceiling; assumption.
+Qed.
+Print Assumptions c18_bump_biofuel_ceiling.
+
+(* ... and that hypothesis cannot be dropped: with feed already above its demand, biofuel can be pushed above
+   its own demand (all inputs non-negative).  Refutation of the unrestricted clause on the model. *)
+Theorem c18_bump_biofuel_ceiling_needs_domain :
+  exists b f inc maxb maxf avail, 0 <= b /\ b <= maxb /\ 0 <= f /\ 0 <= inc /\ 0 <= avail /\ maxf < f /\
+    maxb < fst (bump1 b f inc maxb maxf avail).
+Proof. exact bump1_biofuel_ceiling_needs_domain. Qed.
+Print Assumptions c18_bump_biofuel_ceiling_needs_domain.
+
+(* the code before fix 5ea9ff8 violated the feed clause inside the domain (regulariser leak) *)
+Theorem c18_feed_above_demand_before_fix :
+  exists b f inc maxb maxf avail, 0 <= b /\ b <= maxb /\ 0 <= f /\ f <= maxf /\ 0 <= inc /\
+    maxf < snd (bump1_before_fix b f inc maxb maxf avail).
+Proof. exact bump1_before_fix_refuted. Qed.
+Print Assumptions c18_feed_above_demand_before_fix.
+
+(* ---------------------------------------------------------------- non-vacuity *)
+
+Example ex_consume : consume_all 5 [3; 4; 2] = [3; 2; 0].
+Proof. vm_compute. reflexivity. Qed.
+
+Definition ex_r1 : r1_eaten :=
+  {| e_fish := [100; 0]; e_meat := [200; 50]; e_milk := [300; 0]; e_greenhouse := [0; 0];
+     e_immediate_oc := [500; 700]; e_new_stored_oc := [600; 0]; e_stored_food := [400; 900];
+     e_scp := [0; 0]; e_cell_sugar := [10; 10]; e_seaweed := [5; 5] |}.
+
+Example ex_r1_nonneg : r1_nonneg ex_r1.
+Proof. unfold r1_nonneg, nonneg; repeat split; repeat constructor; vm_compute; discriminate. Qed.
+
+(* threshold 90 %, round 1 fed 79 %: the ceiling is 0.79 * 2100 = 1659 and both months add up to it *)
+Example ex_min_needs : exists d, min_needs 2100 90 79 2100 2 ex_r1 = Ok d /\
+  Forall2 Qeq (map (fun kv => nth 0 (snd kv) 0) d) [100; 200; 300; 0; 1059; 0; 0; 0; 0] /\
+  Forall2 Qeq (map (fun kv => nth 1 (snd kv) 0) d) [0; 50; 0; 0; 700; 900; 0; 9; 0].
+Proof.
+  eexists. split; [vm_compute; reflexivity|].
+  split; simpl; (repeat (constructor; [vm_compute; reflexivity|])); constructor.
+Qed.
+
+Example ex_fill : Forall2 Qeq (fill [1; -2; 3; -1; 1#2]) [1; 0; 1#2; 0; 0].
+Proof. vm_compute. (repeat (constructor; [reflexivity|])); constructor. Qed.
+
+Example ex_retime : (exists l, redistribute [1; 2; 3] [0; 1; 6] = Ok l /\ Forall2 Qeq l [1; 2; 4]) /\
+                    redistribute [1; 2; 3] [0; 1; 2] = Skip.
+Proof.
+  split; [|vm_compute; reflexivity]. eexists. split; [vm_compute; reflexivity|].
+  (repeat (constructor; [vm_compute; reflexivity|])); constructor.
+Qed.
+
+Example ex_bump_domain : exists b f inc maxb maxf avail, b <= maxb /\ f <= maxf /\ 0 <= inc /\
+  b < fst (bump1 b f inc maxb maxf avail) /\ f < snd (bump1 b f inc maxb maxf avail) /\
+  snd (bump1 b f inc maxb maxf avail) == maxf.
+Proof. exists 0, 0, 10, 10, 10, 100. vm_compute. repeat split; discriminate || reflexivity. Qed.
